@@ -10,8 +10,10 @@ import ScrapliProps.C03Lemmas
 
   Ghost `hazard` (Driver.lean, `acquireIter`): raised exactly when a prompt is read with
   belief unknown ∧ device in a level sharing its prompt with the requested level ∧ device level ≠ requested level.
-  * tables whose share groups are singletons (IOS-XE, EOS incl. sessions with distinct prompts,
-    NX-OS with at most one session): the flag never rises — full statements, every history;
+  * tables whose share groups are singletons (IOS-XE, NX-OS with at most one session, EOS incl. sessions whose
+    names are NOT prefix- or case-related in their first six characters — `SessPrefixFree`, part of `EnvOK`;
+    outside that domain the real EOS prompts overlap although the keys differ: `eos_prefix_sessions_outside`,
+    finding F24): the flag never rises — full statements, every history;
   * all tables (IOS-XR, Junos, two NX-OS sessions …): `…_partial` — every history in which the flag
     stays down; the unrestricted statement is REFUTED by a concrete history (`…_full_refuted`).
 -/
@@ -90,6 +92,34 @@ theorem interactive_at_requested_partial (c : Cfg) (cfg : MCfg) (w : W MDev) (op
     ∀ u ∈ (run c (modeDev cfg) w ops).ulog, u.kind = .interactive → ∀ a, u.asked = some a → u.actual = a :=
   fun u hu _ => user_lines_partial c cfg w ops hi hh hz u hu
 
+/-- **commands_at_default_static** — a checkable (static) fragment on ALL tables, IOS-XR and Junos included, for ANY
+    mode device (refusals, passwords): if the history consists of send_command(s), acquire_priv / send_interactive
+    at levels that are admitted only by their own prompt (`Own`, decidable), and generic-mode toggles — i.e. it never
+    names a level that shares its prompt — then the hazard flag stays down, so the belief is sound and every
+    command / interactive line ran in the level named.  (Configs on IOS-XR / Junos necessarily name a shared level:
+    there only the `…_partial` statements and the refutations apply.) -/
+theorem commands_at_default_static (c : Cfg) (cfg : MCfg) (w : W MDev) (ops : List Op) (hi : Inv c cfg w) (h0 : w.hazard = false)
+    (hh : HistOK c cfg w ops) (hs : HistStatic c w.tbl ops) :
+    ((run c (modeDev cfg) w ops).belief = DUMMY ∨ (run c (modeDev cfg) w ops).belief = (run c (modeDev cfg) w ops).ch.dev.mode) ∧
+    ∀ u ∈ (run c (modeDev cfg) w ops).ulog, ∀ a, u.asked = some a → u.actual = a :=
+  have hz := (run_static c ops hi hh hs).trans h0
+  ⟨belief_sound_partial c cfg w ops hi hh hz, user_lines_partial c cfg w ops hi hh hz⟩
+
+/-- which levels of IOS-XR and Junos are admitted only by their own prompt (generated tables, `decide`): everything
+    except the configuration modes -/
+theorem platform_own :
+    Own iosxr "privilege_exec" ∧ ¬ Own iosxr "configuration" ∧ ¬ Own iosxr "configuration_exclusive" ∧
+    Own junos "exec" ∧ Own junos "shell" ∧ Own junos "root_shell" ∧ ¬ Own junos "configuration" ∧
+    ¬ Own junos "configuration_exclusive" ∧ ¬ Own junos "configuration_private" := by
+  refine ⟨?_, ?_, ?_, ?_, ?_, ?_, ?_, ?_, ?_⟩ <;> decide +kernel
+
+/-- non-vacuity on IOS-XR: a history with a generic-mode toggle (which resets the belief) between commands is static -/
+example : HistStatic ({ ord := neighbours, default := iosxrDefault } : Cfg) iosxr [.sendCommand "show a", .setGeneric true, .setGeneric false, .sendCommands ["show b"] false,
+    .acquire "privilege_exec", .interactive ["clear x"] ""] := by
+  intro op hop
+  simp only [List.mem_cons, List.not_mem_nil, or_false] at hop
+  rcases hop with rfl | rfl | rfl | rfl | rfl | rfl <;> simp only [OpStatic] <;> first | trivial | decide +kernel
+
 /-- an acquisition that returns normally with the flag down has put the device in exactly the
     requested level (any refusing / ignoring device) — the "or fails" half of C04 -/
 theorem acquire_ok_exact (c : Cfg) (cfg : MCfg) (w : W MDev) (dest : Name) (hi : Inv c cfg w)
@@ -111,6 +141,18 @@ theorem abortConfig_updates_belief (c : Cfg) (cfg : MCfg) (w : W MDev) (hi : Inv
 theorem platform_singletons : Singleton iosxe ∧ Singleton nxos ∧ Singleton eos ∧ ¬ Singleton iosxr ∧ ¬ Singleton junos := by
   refine ⟨?_, ?_, ?_, ?_, ?_⟩ <;> decide
 
+/-- **outside the domain** (finding F24): EOS with the sessions `abc`, `abcd`, `ABCD` has pairwise different
+    share-group keys (`Singleton`), yet it is NOT `SessPrefixFree` — the real prompt `(config-s-abcd)#` is classified
+    as all three sessions, so neither the full theorems nor the `…_partial` ones (which need `EnvOK`, hence
+    `SessPrefixFree`, for every table of the history) speak about it; while sessions with unrelated names are inside. -/
+theorem eos_prefix_sessions_outside :
+    Singleton (eos ++ [sessLevel eosSess "abc", sessLevel eosSess "abcd", sessLevel eosSess "ABCD"]) ∧
+    ¬ SessPrefixFree (eos ++ [sessLevel eosSess "abc", sessLevel eosSess "abcd"]) ∧
+    ¬ SessPrefixFree (eos ++ [sessLevel eosSess "sess", sessLevel eosSess "SESS"]) ∧
+    SessPrefixFree (eos ++ [sessLevel eosSess "sessA", sessLevel eosSess "other-b"]) ∧
+    SessPrefixFree (nxos ++ [sessLevel nxosSess "sessA", sessLevel nxosSess "sessB"]) := by
+  refine ⟨?_, ?_, ?_, ?_, ?_⟩ <;> decide +kernel
+
 /-- a line that is no command of the table and no vendor move never moves the device -/
 theorem inert_of_not_cmd {cfg : MCfg} {t : Table} {line : Line}
     (h1 : ∀ l ∈ t, l.desc ≠ line ∧ l.esc ≠ line) (h2 : ∀ e ∈ cfg.extra, e.2.1 ≠ line) : Inert cfg t line := by
@@ -130,8 +172,8 @@ theorem inert_of_not_cmd {cfg : MCfg} {t : Table} {line : Line}
   · rw [this]
 
 theorem envOK_of {cfg : MCfg} {t : Table} (h1 : ∀ l ∈ t, l.desc ≠ "" ∧ l.esc ≠ "" ∨ l.prev = "")
-    (h2 : ∀ e ∈ cfg.extra, e.2.1 ≠ "" ∧ e.2.2 ∈ names t) : EnvOK cfg t := by
-  refine ⟨?_, fun e he => (h2 e he).2⟩
+    (h2 : ∀ e ∈ cfg.extra, e.2.1 ≠ "" ∧ e.2.2 ∈ names t) (h3 : SessPrefixFree t) : EnvOK cfg t := by
+  refine ⟨?_, fun e he => (h2 e he).2, h3⟩
   intro m
   have b : t.find? (fun l => l.prev == m && l.prev != "" && l.esc == "") = none := by
     apply List.find?_eq_none.mpr; intro l hl
@@ -164,7 +206,7 @@ theorem xr_abortOK : AbortOK xrDev iosxr iosxrAbort := by
   decide
 
 theorem xr_init_inv : Inv xrCfg xrDev xrInit :=
-  init_inv xrCfg xrDev iosxr "privilege_exec" platform_tables_WF.2.1 (envOK_of (by decide) (by decide)) (by decide)
+  init_inv xrCfg xrDev iosxr "privilege_exec" platform_tables_WF.2.1 (envOK_of (by decide) (by decide) (by decide)) (by decide)
     xr_abortOK (by decide)
 
 theorem xr_inert_x : Inert xrDev iosxr "x" := inert_of_not_cmd (by decide) (by decide)
@@ -248,7 +290,7 @@ def xeInit : W MDev := { tbl := iosxe, ch := { dev := { mode := "exec" } } }
 def xeHist : List Op := [.sendCommand "show version", .sendConfigs ["hostname r2"] "" true]
 
 example : Inv xeCfg xeDev xeInit :=
-  init_inv xeCfg xeDev iosxe "exec" platform_tables_WF.1 (envOK_of (by decide) (by decide)) (by decide) trivial (by decide)
+  init_inv xeCfg xeDev iosxe "exec" platform_tables_WF.1 (envOK_of (by decide) (by decide) (by decide)) (by decide) trivial (by decide)
 
 example : HistOK xeCfg xeDev xeInit xeHist ∧ HistSingleton xeCfg xeDev xeInit xeHist := by
   have t1 : (step xeCfg (modeDev xeDev) xeInit (.sendCommand "show version")).1.tbl = iosxe := by decide +kernel
